@@ -53,6 +53,12 @@ type c21Case struct {
 	// During: writes to registers of the *other* channels (triggers included) made while the measured channel is
 	// being observed, At machine cycles after the measured trigger: they must not disturb its step timing.
 	During []c21Timed `json:"during,omitempty"`
+	// Fresh: the machine as constructed, sound never switched off and on again before the measurement.
+	// Untouched (F0 < 0, no retune): the frequency registers / NR43 are not written before the trigger, they hold
+	// what construction or the power cycle left there - F must say what that is: channel 4: the value FF22 reads
+	// back; channels 1-3: 0, after a power cycle only (their frequency cannot be read back).
+	Fresh     bool `json:"fresh,omitempty"`
+	Untouched bool `json:"untouched,omitempty"`
 }
 
 type c21Timed struct {
@@ -190,8 +196,15 @@ func c21Run(cas c21Case) (sig string, err error) {
 	for i := 0; i < cas.Pre; i++ {
 		hw.HW()
 	}
-	hw.Mp.Write(0xff26, 0x00)
-	hw.Mp.Write(0xff26, 0x80)
+	if !cas.Fresh {
+		hw.Mp.Write(0xff26, 0x00)
+		hw.Mp.Write(0xff26, 0x80)
+	}
+	if cas.Untouched {
+		if cas.F0 >= 0 || cas.Retune != 0 || (cas.Ch < 4 && (cas.Fresh || cas.F != 0)) || (cas.Ch == 4 && int(hw.Mp.Read(0xff22)) != cas.F) {
+			return "bad-case", fmt.Errorf("untouched frequency registers: F must be what they hold (channel 4: FF22 reads %02x; channels 1-3: 0 after a power cycle): %+v", hw.Mp.Read(0xff22), cas)
+		}
+	}
 	for i, w := range cas.Ctx {
 		if !c21CtxAllowed(cas.Ch, w.A, w.V) {
 			return "bad-case", fmt.Errorf("context write %d (%04x=%02x) touches what the measurement of channel %d depends on", i, w.A, w.V, cas.Ch)
@@ -233,6 +246,8 @@ func c21Run(cas c21Case) (sig string, err error) {
 		if cas.Retune == 2 && cas.Ch < 4 {
 			hw.Mp.Write(lo+1, uint8(cas.F>>8)&7)
 		}
+	} else if cas.Untouched {
+		hw.Mp.Write(map[int]uint16{1: 0xff14, 2: 0xff19, 3: 0xff1e, 4: 0xff23}[cas.Ch], 0x80) // the trigger alone
 	} else {
 		c21Start(hw, cas.Ch, cas.F)
 	}
@@ -633,7 +648,7 @@ func (e *c21Enum) run(class string, cas c21Case, sampleIt bool) {
 
 func TestC21(t *testing.T) {
 	c := vf.New(t, "C21", "enumeration: channels 1-3 x every frequency 0-2047 (trigger on a clean power cycle, >= 8 steps observed), channel 4 x every NR43 with s <= 13 (224 values, >= 5 steps), LFSR output stream for 15-bit mode at the fastest clocks (thorough: every r, s <= 3) and 7-bit mode (quick: every r, s <= 5; thorough: every r, s <= 13); "+
-		"rapid: the same measurements in a drawn context (0-5000 cycles before power-on, up to 12 writes to registers the measurement does not depend on, including starting other channels, optionally the measured channel first running at another frequency for 0-20000 cycles before the re-trigger, or retuned while running by a write to NRx3 alone / NRx3+NRx4 without a trigger / NR43; other channels written and triggered during the observation); channel 1 retuned by its own frequency sweep. "+
+		"rapid: the same measurements in a drawn context (0-5000 cycles before power-on, up to 12 writes to registers the measurement does not depend on, including starting other channels, optionally the measured channel first running at another frequency for 0-20000 cycles before the re-trigger, or retuned while running by a write to NRx3 alone / NRx3+NRx4 without a trigger / NR43; other channels written and triggered during the observation); channel 1 retuned by its own frequency sweep; each channel triggered with its frequency registers never written, and measurements on the machine as constructed (no power cycle; a fifth of the rapid cases too). "+
 		"Non-trivial: a timing measurement that observed at least 4 steps after the first, or an LFSR stream of more than two periods. Enumerated cases are distinct by construction; rapid cases distinct by hash.")
 	defer c.Flush()
 	c.RunReplays()
@@ -649,6 +664,52 @@ func TestC21(t *testing.T) {
 		}
 		c.Bulk("enum:tone-frequencies", e.n, e.nt)
 		c.Exhaustive("channels 1, 2, 3 x every 11-bit frequency 0-2047 (partitioned across shards)")
+	})
+
+	// no power cycle and / or no write to the frequency registers before the trigger: whatever the emulator
+	// computes from a frequency write must also be in place when no such write was ever made
+	c.Sub("untouched", func(t *testing.T) {
+		e := &c21Enum{c: c, t: t, seen: map[string]bool{}}
+		idx := 0
+		for _, pre := range []int{0, 1, 777, 70000} {
+			for _, fresh := range []bool{true, false} {
+				for ch := 1; ch <= 4; ch++ {
+					for _, lfsr := range []bool{false, true} {
+						if (lfsr && ch != 4) || (fresh && ch != 4) {
+							continue
+						}
+						idx++
+						if !c.Env.Mine(idx) {
+							continue
+						}
+						cas := c21Case{Ch: ch, F: 0, Steps: 6, F0: -1, Pre: pre, Fresh: fresh, Untouched: true}
+						if lfsr {
+							cas.Lfsr, cas.Steps = true, c21LfsrBits(0)
+						}
+						e.run("enum:untouched-frequency-registers", cas, true)
+					}
+				}
+			}
+		}
+		// fresh machine, registers written as usual
+		for i := 0; i < 4*24; i++ {
+			idx++
+			if !c.Env.Mine(idx) {
+				continue
+			}
+			ch := 1 + i%4
+			f := (i*197 + 31) % 2048
+			if ch == 4 {
+				f = (i * 11) % 224
+			}
+			steps := 5
+			if ch < 4 {
+				steps = c21ToneSteps(ch, f)
+			}
+			e.run("enum:fresh-machine", c21Case{Ch: ch, F: f, Steps: steps, F0: -1, Pre: (i * 997) % 5000, Fresh: true}, i%17 == 0)
+		}
+		c.Bulk("enum:untouched-or-fresh", e.n, e.nt)
+		c.Exhaustive("each channel triggered without any write to its frequency registers / NR43 (after a power cycle; channel 4 also on the machine as constructed), timing and LFSR stream; 96 measurements on the machine as constructed (no power cycle)")
 	})
 
 	c.Sub("noise-timing", func(t *testing.T) {
@@ -757,6 +818,10 @@ func TestC21(t *testing.T) {
 			return c21Write{rapid.SampledFrom(allowed).Draw(rt, "a"), rapid.Byte().Draw(rt, "v")}
 		})
 		cas.Ctx = rapid.SliceOfN(wgen, 0, 12).Draw(rt, "ctx")
+		cas.Fresh = rapid.IntRange(0, 4).Draw(rt, "fresh") == 0
+		if cas.Fresh {
+			c.Class("context:machine-as-constructed", 1)
+		}
 		if rapid.Bool().Draw(rt, "retrigger") {
 			cas.F0 = drawF("f0")
 			cas.Run0 = rapid.IntRange(0, 20000).Draw(rt, "run0")
